@@ -343,6 +343,42 @@ theorem readOnly_modifyRefCheck (stored : InstRec) (pv : PropV) : ReadOnly (modi
   | sc _ => exact readOnly_pure _
   | ref q => exact readOnly_ite _ (readOnly_endpointOk q) (readOnly_pure _)
 
+theorem nsPreserving_modifyMulti (nss : List Name) (rec : InstRec) : NsPreserving (modifyMulti nss rec) := by
+  unfold modifyMulti
+  apply nsPreserving_bind (nsPreserving_of_readOnly readOnly_getS)
+  intro s0
+  cases requireClassAll s0 rec.cls nss with
+  | some e => exact nsPreserving_of_readOnly (readOnly_raise _)
+  | none =>
+    simp only
+    apply nsPreserving_ite
+    · exact nsPreserving_of_readOnly (readOnly_raise _)
+    · apply nsPreserving_forM_
+      intro n
+      apply nsPreserving_inNs
+      intro r r' h
+      exact keepsName_update (fun n => { rec with key := { rec.key with ns := lower n },
+                                                  path := { rec.path with ns := some n } }) n r r' h
+
+theorem modifyWrite_failed_is_identity (s : State) (ns : Name) (stored rec' : InstRec) (others : List Name) :
+    AtomicAt (modifyWrite ns stored rec' others) s := by
+  unfold modifyWrite
+  apply atomicAt_ite
+  · intro _; exact modifyMulti_failed_is_identity s _ _
+  · intro _; exact atomicAt_inNs _ _ _
+
+theorem nsPreserving_modifyWrite (ns : Name) (stored rec' : InstRec) (others : List Name) :
+    NsPreserving (modifyWrite ns stored rec' others) := by
+  unfold modifyWrite
+  apply nsPreserving_ite
+  · exact nsPreserving_modifyMulti _ _
+  · apply nsPreserving_inNs
+    intro r r' h
+    exact keepsName_update (fun _ => rec') [] r r' h
+
+/-- ModifyInstance of an association has TWO write phases (update the copies, then remove the copies in the
+    namespaces no longer referenced): atomic because the update phase keeps every namespace, so the removal phase
+    (delete-if-present in namespaces whose existence was checked first) cannot fail once the update succeeded -/
 theorem modifyProvider_failed_is_identity (s : State) (ns : Name) (cc : ClassRec) (stored : InstRec)
     (props : List PropV) : AtomicAt (modifyProvider ns cc stored props) s := by
   unfold modifyProvider
@@ -350,10 +386,28 @@ theorem modifyProvider_failed_is_identity (s : State) (ns : Name) (cc : ClassRec
   apply atomicAt_ite
   · intro _
     apply atomicAt_bind (readOnly_forM_ (readOnly_modifyRefCheck stored) _); intro _ _
+    apply atomicAt_liftE_then; intro old _
     apply atomicAt_liftE_then; intro others _
+    apply atomicAt_getS_then
     apply atomicAt_ite
-    · intro _; exact modifyMulti_failed_is_identity s _ _
-    · intro _; exact atomicAt_inNs _ _ _
+    · intro _; exact atomicAt_raise _ _
+    · intro hstale
+      apply atomicAt_bind_write (modifyWrite_failed_is_identity s ns stored _ others)
+      intro s1 a hs1 e he
+      exfalso
+      have hex : ∀ n ∈ old.filter (fun n => !nmem n others), (findNs s1 n).isSome = true := by
+        intro n hn
+        rw [nsPreserving_modifyWrite ns stored _ others s s1 a hs1 n]
+        simp only [List.any_eq_true, not_exists, not_and, Option.isNone_iff_eq_none] at hstale
+        have := hstale n hn
+        cases hf : findNs s n with
+        | none => exact absurd hf this
+        | some _ => rfl
+      obtain ⟨s2, hs2⟩ := forM_total_ok (fun n => instDeleteIfPresentR { stored.key with ns := lower n })
+        (fun n r => instDeleteIfPresentR_total _ r) _ s1 hex
+      unfold dropStale at he
+      rw [hs2] at he
+      cases he
   · intro _; exact atomicAt_inNs _ _ _
 
 theorem modifyInstance_failed_is_identity (s : State) (ns : Name) (p : Path) (i0 : Inst)
@@ -653,6 +707,48 @@ theorem failed_ops_of_history_with_setup_are_identity : ∀ (cs : List Cmd) (s :
     unfold runCmds FailedOpsAreIdentity
     exact failed_ops_of_history_with_setup_are_identity cs _
 
+/-! ### what the snapshot/restore does and does not change -/
+
+/-- a guarded batch is atomic WHATEVER its steps do to the repository - also steps that write and then raise
+    (e.g. a user-defined provider of any kind reached from DeleteClass or from a MOF instance production) -/
+theorem guarded_batch_atomic_for_any_steps {α} (f : α → M Unit) (xs : List α) (ns : Name) (s : State) :
+    AtomicAt (validateNs ns >>= fun _ => withRollback (forM_ f xs)) s := by
+  apply atomicAt_bind (readOnly_validateNs ns); intro _ _
+  exact atomicAt_withRollback _ _
+
+theorem withRollback_outcome {α} (m : M α) (s : State) : (withRollback m s).2 = (m s).2 := by
+  unfold withRollback
+  cases m s with
+  | mk s' r => cases r <;> rfl
+
+theorem withRollback_of_ok {α} (m : M α) (s s' : State) (a : α) (h : m s = (s', .ok a)) :
+    withRollback m s = (s', .ok a) := by
+  unfold withRollback; rw [h]
+
+/-- the restore never changes WHAT a compile returns or raises: same outcome as the original code -/
+theorem compileMofItems_outcome_eq_original (s : State) (ns : Name) (items : List MofItem) :
+    (compileMofItems ns items s).2 = (compileMofItemsNoRestore ns items s).2 := by
+  unfold compileMofItems compileMofItemsNoRestore
+  rw [bind_apply, bind_apply]
+  cases validateNs ns s with
+  | mk s1 r1 =>
+    cases r1 with
+    | error e => rfl
+    | ok _ => exact withRollback_outcome _ s1
+
+/-- and when the compile succeeds the repository is exactly what the original code produced: the fix is
+    invisible for successful calls -/
+theorem compileMofItems_eq_original_on_success (s s' : State) (ns : Name) (items : List MofItem)
+    (h : compileMofItemsNoRestore ns items s = (s', .ok ())) : compileMofItems ns items s = (s', .ok ()) := by
+  unfold compileMofItems compileMofItemsNoRestore at *
+  rw [bind_apply] at h ⊢
+  revert h
+  cases validateNs ns s with
+  | mk s1 r1 =>
+    cases r1 with
+    | error e => intro h; cases h
+    | ok _ => intro h; exact withRollback_of_ok _ s1 s' () h
+
 /-! ### PropertyList of ModifyInstance -/
 
 /-- with a PropertyList only properties named in it reach the provider -/
@@ -905,6 +1001,16 @@ example : step wS4 (.modifyInstance wNs wPath4 { cls := "P3".toList, props := [w
     = (wS4, some (.cimError 4)) := by decide +kernel
 example : step wS4 (.modifyInstance wNs wPath4 { cls := "P3".toList, props := [wIntProp "v" 2] } (some ["nosuch".toList]))
     = (wS4, some (.cimError 4)) := by decide +kernel
+
+/-! the two write phases of ModifyInstance without looking up the stale namespaces first (the code as it was when
+    the removal of stale copies was introduced): the update is done, then KeyError for the missing namespace -/
+
+def wStored4 : InstRec :=
+  mkInstRec wNs "P3".toList [("k".toList, .sc (.str "a".toList))] "P3".toList [wStr "k" "a", wIntProp "v" 1]
+
+theorem modify_then_drop_stale_without_lookup_not_atomic :
+    failsChanged (modifyWrite wNs wStored4 { wStored4 with props := [wStr "k" "a", wIntProp "v" 2] } [] >>= fun _ =>
+      dropStale wStored4 ["root/zz".toList]) wS4 = true := by decide +kernel
 
 /-! ### the source skeletons (Generated/Atomic.lean, re-extracted from the repo on every run) -/
 
